@@ -984,6 +984,13 @@ impl Transformer {
                     element_set.insert(e.name.clone());
                     class_set.extend(e.get_classes());
                 }
+                // (the elements of a nested SVG document which was passed through)
+                OutputEvent::Other(quick_xml::events::Event::Start(e) | quick_xml::events::Event::Empty(e)) => {
+                    if let Ok(e) = SvgElement::try_from(e) {
+                        element_set.insert(e.name.clone());
+                        class_set.extend(e.get_classes());
+                    }
+                }
                 _ => {}
             }
         }
